@@ -15,7 +15,8 @@ Inv == <<A, T, I>>
 PSYLL == Mx(<<FPos(F_SYLL)>>)   NSYLL == Mx(<<FNeg(F_SYLL)>>)   ANY == Mx(<<>>)
 CC == Grp(1)
 Inputs  == <<Ipa(A), Ipa(T), PSYLL, NSYLL, ANY, CC, SetOf(<<Ipa(A), Ipa(T)>>), SetOf(<<Ipa(T), PSYLL>>)>>
-Outputs == <<Ipa(I), Ipa(T), Mx(<<FNeg(F_SYLL)>>), Mx(<<FPos(F_VOICE)>>), Mx(<<FPos(F_SYLL), FNeg(F_CONS)>>)>>
+Outputs == <<Ipa(I), Ipa(T), Mx(<<FNeg(F_SYLL)>>), Mx(<<FPos(F_VOICE)>>), Mx(<<FPos(F_SYLL), FNeg(F_CONS)>>),
+             SetOf(<<Ipa(I), Mx(<<FPos(F_VOICE)>>)>>), SetOf(<<Mx(<<FPos(F_VOICE)>>), Mx(<<FNeg(F_SYLL)>>)>>)>>      \* output sets answer the two-member input sets
 Elems   == <<Ipa(A), Ipa(T), PSYLL, CC, SetOf(<<Ipa(A), Ipa(T)>>), SB, WB>>
 NE == Len(Elems)
 \* environment sides in written order; a word boundary may only be the outermost element
@@ -36,12 +37,14 @@ RuleOf == LET c1 == Env(SB_[cb], SA_[ca])  e1 == Env(EB_[eb], EA_[ea]) IN
             [] Stratum \in {"B", "D"} -> Rule(<<Inputs[ii]>>, <<Outputs[oi]>>, IF c1 = EmptyEnv THEN <<>> ELSE <<c1>>, <<e1>>)
             [] Stratum = "C" -> Rule(<<Inputs[ii]>>, <<Outputs[oi]>>, <<c1, e1>>, <<>>)          \* ctx = :{ c1, e1 }:
 
-Index == ii + 8 * oi + 40 * cb + 40 * 64 * ca + 40 * 64 * 64 * eb + 40 * 64 * 64 * 8 * ea
+Index == ii + 8 * oi + 56 * cb + 56 * 64 * ca + 56 * 64 * 64 * eb + 56 * 64 * 64 * 8 * ea
 
+OutFits == Outputs[oi].k = "set" => Inputs[ii].k = "set"
 Init == IF Stratum = "D" THEN ii \in 1..Stride /\ oi = 0 /\ cb = 0 /\ ca = 0 /\ eb = 0 /\ ea = 0 /\ w = <<>> /\ res = <<>> ELSE
         /\ ii \in 1..Len(Inputs) /\ oi \in 1..Len(Outputs)
         /\ cb \in 1..Len(SB_) /\ ca \in 1..Len(SA_)
         /\ IF Stratum = "A" THEN eb = 1 /\ ea = 1 ELSE (eb \in 1..Len(Side1B) /\ ea \in 1..Len(Side1A) /\ ~(eb = 1 /\ ea = 1))
+        /\ OutFits
         /\ Index % Stride = Seed % Stride
         /\ w = <<>> /\ res = <<>>
 
@@ -62,7 +65,7 @@ NextABC == res = <<>> /\ \E x \in GoodWords :
           /\ res' = LET r == RunScanF(x, RuleOf) IN [ok |-> r.ok, out |-> Unflat(x, r.segs), steps |-> r.steps]
           /\ UNCHANGED <<ii, oi, cb, ca, eb, ea>>
 \* stratum D: first a random rule (oi = 0 marks "not chosen yet"), then NWords random words for it
-NextD == \/ /\ oi = 0 /\ ii' = RandomElement(1..Len(Inputs)) /\ oi' = RandomElement(1..Len(Outputs))
+NextD == \/ /\ oi = 0 /\ ii' = RandomElement(1..Len(Inputs)) /\ oi' = (IF Inputs[ii'].k = "set" THEN RandomElement(1..Len(Outputs)) ELSE RandomElement(1..5))
             /\ cb' = RandomElement(1..Len(SB_)) /\ ca' = RandomElement(1..Len(SA_))
             /\ eb' = RandomElement(1..Len(EB_)) /\ ea' = RandomElement(1..Len(EA_)) /\ UNCHANGED <<w, res>>
          \/ /\ oi # 0 /\ res = <<>> /\ \E k \in 1..NWords :
